@@ -37,6 +37,13 @@ pub fn tables(schema: &[&'static str], maxrows: usize, side: i64) -> Vec<Tbl> {
   out
 }
 
+/// the same table with its columns declared in another order (0 as listed, 1 reversed, 2 rotated left); cells move with their column
+pub fn permute(t: &Tbl, p: usize) -> Tbl {
+  let n = t.cols.len();
+  let order: Vec<usize> = match p { 1 => (0..n).rev().collect(), 2 => (0..n).map(|i| (i + 1) % n).collect(), _ => (0..n).collect() };
+  Tbl { cols: order.iter().map(|i| t.cols[*i]).collect(), rows: t.rows.iter().map(|r| order.iter().map(|i| r[*i]).collect()).collect() }
+}
+
 /// column kind layouts: (kind of the key columns k, j; kind of the payload columns a, b)
 pub const LAYOUTS: [(&str, &str); 5] = [("u64", "u64"), ("u8", "f64"), ("string", "u64"), ("bool", "string"), ("f64", "u8")];
 
@@ -140,7 +147,9 @@ fn judge(c: &Canon, a: &Tbl, b: &Tbl, op: &str, locus: &str, case: &str, out: &m
 
 impl UnitRunner for C18 {
   fn unit(&mut self, payload: &str, unit: u64, out: &mut WorkerOut) {
+    // payload: "" | "L<layout>" | "P<lhs perm><rhs perm>" (column declaration orders: 0 as listed, 1 reversed, 2 rotated; layout 0)
     let li = payload.strip_prefix('L').and_then(|x| x.parse::<usize>().ok()).unwrap_or(0);
+    let (lp, rp) = match payload.strip_prefix('P') { Some(x) if x.len() == 2 => (x[0..1].parse::<usize>().unwrap_or(0), x[1..2].parse::<usize>().unwrap_or(0)), _ => (0, 0) };
     let lay = LAYOUTS[li];
     let sp = (unit / 256) as usize;
     let ai = (unit % 256) as usize;
@@ -151,8 +160,10 @@ impl UnitRunner for C18 {
     let lt = tables(ls, rows_for(ls), 10);
     let rt = tables(rs, rows_for(rs), 100);
     if ai >= lt.len() { return; }
-    let a = &lt[ai];
+    if (lp, rp) != (0, 0) && permute(&lt[0], lp).cols == lt[0].cols && permute(&rt[0], rp).cols == rt[0].cols { return; }
+    let a = &permute(&lt[ai], lp);
     let shared = ls.iter().filter(|c| rs.contains(c)).count();
+    let rt: Vec<Tbl> = rt.iter().map(|t| permute(t, rp)).collect();
     for (bi, b) in rt.iter().enumerate() {
       let mut s = Session::new();
       let (da, db) = (format!("A := {}", literal_in(a, lay)), format!("B := {}", literal_in(b, lay)));
@@ -161,7 +172,7 @@ impl UnitRunner for C18 {
       let empty_ok = bi == 0 && s.run("E := A ▷ A").is_value() && s.run("G := B ▷ B").is_value();
       for (n, (sym, word, op)) in OPS.iter().enumerate() {
         let dup = a.rows.len() > 1 || b.rows.len() > 1;
-        let locus = format!("{}:shared{}:{}{}", op, shared, if dup { "multi-row" } else { "single-row" }, if li == 0 { String::new() } else { format!(":keys-{}-payload-{}", lay.0, lay.1) });
+        let locus = format!("{}:shared{}:{}{}", op, shared, if dup { "multi-row" } else { "single-row" }, if li == 0 { if (lp, rp) == (0, 0) { String::new() } else { format!(":columns-declared-{}-{}", ["as-listed", "reversed", "rotated"][lp], ["as-listed", "reversed", "rotated"][rp]) } } else { format!(":keys-{}-payload-{}", lay.0, lay.1) });
         out.evaluations += 1;
         let o = s.run(&format!("J{} := A {} B", n, sym));
         let case = format!("{}; {}; J := A {} B", da, db, sym);
@@ -258,6 +269,8 @@ impl Check for C18 {
     // the same pairs with every other column-kind layout (keys u8 / string / bool / f64, payloads f64 / u64 / string / u8)
     let base = jobs.clone();
     for li in 1..LAYOUTS.len() { jobs.extend(base.iter().map(|j| Job { payload: format!("L{}", li), lo: j.lo, hi: j.hi })); }
+    // the same pairs (first layout) with the columns of either side declared in another order: shared columns then sit at different positions
+    for lp in 0..3 { for rp in 0..3 { if (lp, rp) != (0, 0) { jobs.extend(base.iter().map(|j| Job { payload: format!("P{}{}", lp, rp), lo: j.lo, hi: j.hi })); } } }
     jobs.extend((0..5).map(|u| Job { payload: String::new(), lo: 9 * 256 + u, hi: 9 * 256 + u + 1 }));
     drive_ranges(cfg, rep, jobs);
     if rep.out.nontrivial < 1000 { rep.vacuity.push("too few judged joins".into()); }
